@@ -306,6 +306,7 @@ func runC16(r *mon.Run) {
 			w.Fail("c16/DoubleScalarMultBasepointVartime:operand", "the point operand was modified")
 		}
 	})
+	runColdStart(r, "c16", r.N(18, 300), "dsm", "msm", "msmv")
 }
 
 func unknownShare(r interface{ Intn(int) int }, n int) bool { return n > 0 && r.Intn(12) == 0 }
